@@ -240,6 +240,11 @@ def py_index(sel):
     if k in ("label", "posint"):
         return sel["v"]
     if k == "pslice":
+        import zlib
+        if zlib.crc32(repr(sorted(sel.items(), key=str)).encode()) % 3 == 0:
+            # the bounds as numpy integers (what arithmetic on array shapes / rng.integers hands out): still positions
+            f = lambda v: None if v is None else np.int64(v)       # noqa: E731
+            return slice(f(sel["start"]), f(sel["stop"]), f(sel["step"]))
         return slice(sel["start"], sel["stop"], sel["step"])
     if k == "lslice":
         return slice(sel["a"], sel["b"], sel["step"])
